@@ -637,11 +637,11 @@ def plan(tier, seed):
     for k in range(0, len(pre2), chunk):
         specs.append({"kind": "labels", "prefixes": pre2[k:k + chunk], "maxlen": maxlen})
     specs.append({"kind": "labels-short"})
-    n, ex = (8, 400) if tier == "quick" else (16, 4000)
+    n, ex = (8, 400) if tier == "quick" else (16, 10000)
     specs += [{"kind": "listing", "examples": ex, "seed": seed * 1000 + k} for k in range(n)]
-    n, ex = (8, 150) if tier == "quick" else (16, 1500)
+    n, ex = (8, 150) if tier == "quick" else (16, 4000)
     specs += [{"kind": "dssr", "examples": ex, "seed": seed * 1000 + 100 + k, "files": corpus.SMALL[:6]} for k in range(n)]
-    n, ex = (4, 40) if tier == "quick" else (16, 500)
+    n, ex = (4, 40) if tier == "quick" else (16, 1500)
     specs += [{"kind": "cli", "examples": ex, "seed": seed * 1000 + 200 + k, "files": corpus.SMALL[:6]} for k in range(n)]
     # coverage-guided tier: empty corpus and a corpus of small valid inputs
     if tier == "quick":
